@@ -1411,6 +1411,10 @@ def slide(
                     or action.status == ActionStatus.STARTED
                 ):
                     action.flow_scope_count -= 1
+                    # The flow has given up its share of the action, it must not do it
+                    # a second time when the flow itself ends
+                    if action_uid in flow_state.action_uids:
+                        flow_state.action_uids.remove(action_uid)
                     if action.flow_scope_count == 0:
                         action_event = action.stop_event({})
                         action.status = ActionStatus.STOPPING
